@@ -151,10 +151,10 @@ def shards(tier):
                     for second in KINDS:
                         if (first.startswith('reconnect') or second.startswith('reconnect')) and not persistent:
                             continue
-                        out.append(('qos2', {'profile': profile, 'persistent': persistent, 'n': n, 'k': 6 if T else (4 if n == 1 else 3), 'first': first, 'second': second,
+                        out.append(('qos2', {'profile': profile, 'persistent': persistent, 'n': n, 'k': (5 if n == 1 else 4) if T else (4 if n == 1 else 3), 'first': first, 'second': second,
                                              'with_qos1': n == 2}))
                         if n == 1 and persistent and (T or first in ('PUBREC', 'advance')):
-                            out.append(('qos2', {'profile': profile, 'persistent': persistent, 'n': n, 'k': 6 if T else 4, 'first': first, 'second': second,
+                            out.append(('qos2', {'profile': profile, 'persistent': persistent, 'n': n, 'k': 5 if T else 4, 'first': first, 'second': second,
                                                  'with_qos1': False, 'early': True}))
     out.append(('qos2', {'profile': 'pubsubs', 'persistent': True, 'n': 1, 'k': 3, 'first': 'PUBREC', 'second': 'advance', 'ver': 31, 'with_qos1': False}))
     return out
@@ -164,7 +164,7 @@ META = {
     'rule': 'connected publishing client (clean or persistent), window symbolic, 1..2 QoS 2 publishes (+ one QoS 1), k free steps from {PUBREC, PUBCOMP (identifier '
             'symbolic), advance(dt symbolic), publish QoS 2, publish QoS 1, loss + rebuilt protocol + persistent connect + CONNACK, the same through an intermediate clean session, the same with a first attempt lost before CONNACK}, then 200 s; the order of '
             'PUBLISH/PUBREL per identifier is read from the reference-parsed wire log of all connections',
-    'bounds': {'quick': 'the first publish optionally issued before CONNACK (persistent session), also on reconnect; k=4 around one QoS 2 exchange, k=3 around two QoS 2 and one QoS 1 exchange; at most 2 further publishes', 'thorough': 'k=6'},
+    'bounds': {'quick': 'the first publish optionally issued before CONNACK (persistent session), also on reconnect; k=4 around one QoS 2 exchange, k=3 around two QoS 2 and one QoS 1 exchange; at most 2 further publishes', 'thorough': 'k=5 around one exchange, k=4 around two'},
     'stubs': ['fake transport', 'twisted task.Clock', 'jitter: fixed sequence'],
     'outside': ['histories longer than k steps', 'identifier wrap-around (C17)'],
     'assumptions': ['acknowledgement types fit the exchange they may address'],
